@@ -517,6 +517,8 @@ def kv_mut_strategy():
         st.tuples(st.just('setitem'), st.integers(0, 30), name, gens.kv_value(4)).map(list),
         st.tuples(st.just('set_value'), st.integers(0, 30), gens.kv_value(4)).map(list),
         st.tuples(st.just('rename'), st.integers(0, 30), name).map(list),
+        st.tuples(st.just('edit_name'), st.integers(0, 30), name).map(list),
+        st.tuples(st.just('edit_value'), st.integers(0, 30), gens.kv_value(4)).map(list),
         st.tuples(st.just('iadd'), st.integers(0, 30), name).map(list),
         st.tuples(st.just('ensure'), st.integers(0, 30), st.sampled_from(['k', 'sub'])).map(list),
         st.tuples(st.just('set_key'), st.integers(0, 30), st.sampled_from(['k', 'sub'])).map(list),
@@ -587,6 +589,13 @@ def kv_apply(root, mut, ctx) -> bool:
         return True
     if op == 'rename':
         kv.name = mut[2]
+        return True
+    if op == 'edit_name':
+        kv.edit(name=mut[2])
+        return True
+    if op == 'edit_value':
+        if not kv.has_children():
+            kv.edit(value=mut[2])
         return True
     return False
 
